@@ -140,7 +140,8 @@ type Case struct {
 	Shards int  `json:"shards"` // the shard count the limiter server reports when it is known (op "shards" n>0)
 	Probe  int  `json:"probe"`  // capacity probes stop after this many admissions
 	Ops    []Op `json:"ops"`
-	// KindChange marks cases whose schema type changes: only the correspondence is checked on them
+	// KindChange marks cases whose schema TYPE changes (requests are not held in them: a token bucket is involved);
+	// they are judged like every other case
 	KindChange bool `json:"kindChange,omitempty"`
 	// LateStops: the case runs on one P without the harness ever blocking between a stop of the remote wrapper and the
 	// next creation of a counter, so the goroutines the stopped wrapper left behind run AFTER that creation (a legal
